@@ -17,7 +17,7 @@ items = []
 for d in a.dirs.split(","):
     for name in sorted(os.listdir(os.path.join(V, d))):
         p = os.path.join(V, d, name)
-        if os.path.isdir(p) and os.path.exists(os.path.join(p, "patch.diff")) and (not a.only or a.only in name):
+        if os.path.isdir(p) and os.path.exists(os.path.join(p, "patch.diff")) and (not a.only or any(x and (x == name or (x.startswith("*") and x[1:] in name)) for x in a.only.split(","))):
             items.append(p)
 
 def run(p):
